@@ -190,6 +190,8 @@ def sibling_loop_bounds(repo, res, rule="SIBLINGS"):
 
 
 def run(repo, res, tier):
+    from . import c04 as _c04
+    _c04.allstates(repo, res)  # a fully typed value is recognised only if the state it is typed at has its row of within-word transitions
     sibling_loop_bounds(repo, res)
     _bash_printer_skips(repo, res)
     sortlen(repo, res)
